@@ -88,6 +88,9 @@ fn check_counter_inner(c: &CounterCase) -> CaseResult {
                     continue;
                 }
                 let i = vcore::pick(k, guards.len());
+                // the wake-up belongs to the very drop that brings the count below the capacity
+                // (an earlier one would find the counter still full)
+                let before = waiting.map(|(w, _)| wakers[w].0 .0.load(Ordering::SeqCst));
                 drop(guards.remove(i));
                 let crossing = live == cap; // live goes cap -> cap-1: count is now below the capacity
                 live -= 1;
@@ -95,11 +98,11 @@ fn check_counter_inner(c: &CounterCase) -> CaseResult {
                     released_after_cap = true;
                 }
                 if crossing {
-                    if let Some((w, at)) = waiting.take() {
+                    if let Some((w, _at)) = waiting.take() {
                         let now = wakers[w].0 .0.load(Ordering::SeqCst);
                         wake_checked = true;
-                        vensure!(now > at, "C17/counter-lost-wake",
-                            "step {}: a guard drop brought the count below capacity {} but the task most recently answered 'unavailable' (waker {}) was not woken; ops {:?}",
+                        vensure!(now > before.unwrap_or(0), "C17/counter-lost-wake",
+                            "step {}: a guard drop brought the count below capacity {} but the task most recently answered 'unavailable' (waker {}) was not woken by it; ops {:?}",
                             step, cap, w, c.ops);
                     }
                 }
